@@ -2,8 +2,10 @@
 //! Every subcommand writes ndjson events; no expected value is computed here.
 mod acc;
 mod common;
+mod depipe;
 mod fix;
 mod framede;
+mod io;
 #[macro_use]
 mod ser;
 mod transport;
@@ -44,6 +46,8 @@ fn main() {
         "wire-vec" => wire::run_vectors(&args),
         "fix" => fix::run(&args),
         "ser" => ser::run(&args),
+        "depipe" => depipe::run(&args),
+        "io" => io::run(&args),
         "cobs-de" => framede::run_cobs(&args),
         "crc-de" => framede::run_crc(&args),
         "acc-edges" => acc::run_edges(&args),
